@@ -1926,3 +1926,32 @@ def scalar_leaves(prog, f, operand, depth=4, out=None):
     return out
 
 
+
+
+def access_root(fn, local, hops=8):
+    """the local a place base is reached through: follows Deref/DerefMut/as_ref/as_mut calls and `&`/copies back to the
+    guard / parameter local (single definitions only). Returns a local number or None."""
+    l = local
+    while hops > 0:
+        hops -= 1
+        ds = [x for x in fn.defs().get(l, []) if x[2] in ('assign', 'call', 'arg')]
+        if len(ds) != 1:
+            return l
+        bb, si, kind, payload = ds[0]
+        if kind == 'arg':
+            return l
+        if kind == 'call':
+            c = payload
+            if c.name in ('deref', 'deref_mut', 'as_ref', 'as_mut', 'borrow', 'borrow_mut') and c.args and op_local(c.args[0]) is not None:
+                l = op_local(c.args[0])
+                continue
+            return l
+        r = payload
+        if r['k'] == 'ref':
+            l = r['p'][0]
+            continue
+        if r['k'] == 'use' and op_place(r['o']) is not None and not [e for e in op_place(r['o'])[1] if e != '*']:
+            l = op_place(r['o'])[0]
+            continue
+        return l
+    return l
